@@ -49,14 +49,15 @@
    "share" / "sharesame" (books whose articles have a book-level identifier in common: a
    reference name defined in each with its own text and re-used, a stored image, a template, an
    identical section heading, an external URL; the harness also repeats the title word of a
-   chapter's first article in the chapter title), "full" (every variant once, exhaustive for single articles), "rich"
+   chapter's first article in the chapter title), "volume" / "volumeall" (size: a float block at
+   every offset of a page, table rows with a big cell, blocks that span pages), "full" (every variant once, exhaustive for single articles), "rich"
    (parameterised productions, for -simulate). *)
 EXTENDS Naturals, Sequences, FiniteSets, TLC, Json
 
 CONSTANTS MaxArts,      \* 1..4
           MaxBlocks,    \* blocks per article
           MinBlocks,    \* 1 normally; = MaxBlocks to enumerate exactly-k-block articles
-          Palette,      \* "mini" | "core" | "full" | "pairs" | "pairsall" | "runs3" | "runs5all" | "share" | "sharesame" | "rich"
+          Palette,      \* "mini" | "core" | "full" | "pairs" | "pairsall" | "runs3" | "runs5all" | "share" | "sharesame" | "volume" | "volumeall" | "rich"
           Chapters,     \* BOOLEAN: chapter layouts enumerated (FALSE: no chapters)
           EmitCases     \* TRUE: print every finished collection as JSON (P-ENUM)
 
@@ -82,7 +83,7 @@ TplWords(tp) ==
     [] tp = "Tlist"  -> <<908, 909>>
     [] tp = "Ttable" -> <<910, 911>>
 TplDeps(tp) == IF tp = "Tnest" THEN {"Tnest", "Tinl"} ELSE {tp}
-Images == 1..3
+Images == 1..4        \* 4 is a large picture (a tall thumbnail)
 
 Styles == {"n", "b", "i", "bi", "hb", "hi", "hs", "he"}   \* plain, ''' '', ''''', <b> <i> <strong> <em>
 
@@ -97,6 +98,8 @@ RF(n)          == [t |-> "ref", w |-> n]
 RN(nm, n)      == [t |-> "refn", nm |-> nm, w |-> n]       \* <ref name="r<nm>">word</ref>
 RU(nm)         == [t |-> "refu", nm |-> nm, w |-> 0]       \* <ref name="r<nm>" />
 SW(k)          == [t |-> "sw", w |-> 950 + k]
+\* k consecutive plain words n .. n+k-1 (long paragraphs: volume)
+WS(n, k)       == [t |-> "ws", w |-> n, k |-> k]
 TC(tp, n)      == [t |-> "tc", tp |-> tp, w |-> n]
 IM(i, n)       == [t |-> "img", i |-> i, w |-> n]
 FG(i, k, n, s) == [t |-> "fig", i |-> i, k |-> k, w |-> n, s |-> s, tp |-> ""]
@@ -134,6 +137,7 @@ DenItem(x, c) ==
     [] x.t = "refn" -> <<DW(x.w, c \o "/named-ref")>>
     [] x.t = "refu" -> <<>>                                   \* re-use of a defined reference: no words
     [] x.t = "sw"  -> <<DW(x.w, c \o "/shared-word")>>
+    [] x.t = "ws"  -> [j \in 1..x.k |-> DW(x.w + j - 1, c \o "/word-n")]
     [] x.t = "tc"  -> <<DW(x.w, c \o "/template-arg-" \o x.tp)>>
                       \o [k \in 1..Len(TplWords(x.tp)) |-> DW(TplWords(x.tp)[k], c \o "/template-word-" \o x.tp)]
     [] x.t = "img" -> <<>>                                    \* alt text only
@@ -182,7 +186,7 @@ ItemsBlock(b) ==
                           \cup (IF b.cap = 0 THEN {} ELSE {[t |-> "gcap", w |-> b.cap]})
     [] b.b = "tpl"     -> {TC(b.tp, b.w)}
 ItemsOf(bs)  == UNION {ItemsBlock(bs[k]) : k \in 1..Len(bs)}
-IdsOf(bs)    == {x.w : x \in {y \in ItemsOf(bs) : y.t \notin {"refu", "sw"}}}
+IdsOf(bs)    == UNION {IF x.t = "ws" THEN x.w..(x.w + x.k - 1) ELSE {x.w} : x \in {y \in ItemsOf(bs) : y.t \notin {"refu", "sw"}}}
 AltsOf(bs)   == {x.w : x \in {y \in ItemsOf(bs) : y.t = "img"}}
 TplsOf(bs)   == UNION {TplDeps(x.tp) : x \in {y \in ItemsOf(bs) : y.t = "tc" \/ (y.t = "fig" /\ y.tp # "")}}
 ImgsOf(bs)   == {x.i : x \in {y \in ItemsOf(bs) : y.t \in {"img", "fig", "gi"}}}
@@ -366,6 +370,42 @@ Runs(maxk, all, n) ==
              same \in BOOLEAN, tplast \in BOOLEAN }
         ELSE {})
 
+\* VOLUME: content whose size matters to the code under test (single-article collections)
+\*  - a float block shifted down the page: L one-line paragraphs, a tall floating thumbnail, a
+\*    first paragraph of p1 words beside it (about as tall as the figure for p1 ~ 60..80), a long
+\*    second paragraph, a closing line; for every offset L of a page and several p1
+\*  - a table row with a BIG cell (np paragraphs of wpp words, or a paragraph and a list) next to
+\*    a short or an empty cell, on either side: above ~1100 characters the cleaner splits the row
+\*  - blocks that span pages: a long paragraph, list, table, preformatted block
+LeadParas(n, L) == [j \in 1..L |-> Para(<<W(n + j - 1, "n")>>)]
+FloatSweep(L, p1, kind, n) ==
+  PS(LeadParas(n, L) \o <<Fig(FG(4, kind, n + L, "n")), Para(<<WS(n + L + 1, p1)>>),
+                           Para(<<WS(n + L + 1 + p1, 70)>>), Para(<<W(n + L + 71 + p1, "n")>>)>>, L + 72 + p1)
+BigCellRow(npar, wpp, bigleft, emptyother, withlist, n) ==
+  LET big == Cell(FALSE, <<>>, [j \in 1..npar |-> Para(<<WS(n + (j - 1) * wpp, wpp)>>)]
+                              \o (IF withlist THEN <<ListOf(n + npar * wpp, [j \in 1..8 |-> "*"], "n")>> ELSE <<>>))
+      u   == npar * wpp + (IF withlist THEN 8 ELSE 0)
+      oth == IF emptyother THEN Cell(FALSE, <<>>, <<>>) ELSE PlainCell(n + u)
+      v   == u + (IF emptyother THEN 0 ELSE 1) IN
+  PS(<<Table(<<>>, <<IF bigleft THEN <<big, oth>> ELSE <<oth, big>>>>), Para(<<W(n + v, "n")>>)>>, v + 1)
+LongBlocks(n) ==
+  { P(Para(<<WS(n, 300)>>), 300),
+    P(ListOf(n, [j \in 1..70 |-> IF j % 3 = 0 THEN "**" ELSE "*"], "n"), 70),
+    P(Table(<<W(n, "n")>>, Grid(n + 1, 60, 2, "row")), 121),
+    P(Pre([j \in 1..70 |-> <<W(n + j - 1, "n")>>]), 70),
+    PS(<<Para(<<WS(n, 250)>>), Sec(2, <<W(n + 250, "n")>>, <<WS(n + 251, 250)>>)>>, 501) }
+CellShapes == {<<2, 80>>, <<3, 80>>, <<4, 40>>, <<3, 40>>, <<2, 120>>}
+Volume(n) ==
+  { FloatSweep(L, 72, "thumb", n) : L \in 0..47 }
+  \cup { FloatSweep(2 * h, 44, "left", n) : h \in 0..23 }
+  \cup { BigCellRow(sh[1], sh[2], (sh[1] + sh[2] \div 40) % 2 = 0, sh[1] = 4, FALSE, n) : sh \in CellShapes }
+  \cup { BigCellRow(1, 100, TRUE, FALSE, TRUE, n), BigCellRow(3, 80, FALSE, TRUE, FALSE, n) }
+  \cup LongBlocks(n)
+VolumeAll(n) ==
+  Volume(n)
+  \cup { FloatSweep(L, 20 + 4 * q, kind, n) : L \in 0..47, q \in 0..15, kind \in {"thumb", "left"} }
+  \cup { BigCellRow(sh[1], sh[2], bl, eo, wl, n) : sh \in CellShapes, bl \in BOOLEAN, eo \in BOOLEAN, wl \in BOOLEAN }
+
 \* book-level sharing: one production per kind of identifier that several articles of a book can
 \* have in common (the words stay unique): reference name r1 defined with the article's own text
 \* and re-used, two names, stored image 1, templates Tinl / Ttable with the article's own
@@ -406,7 +446,7 @@ Rich(n) ==
            IF hc THEN m + 1 ELSE m) :
            m \in 1..4, pr \in {0, 1, 2, 3}, off \in 0..2, hc \in BOOLEAN }
 
-Blocks(n) == CASE Palette = "share" -> Share(n) [] Palette = "sharesame" -> ShareSame(n) [] Palette = "runs3" -> Runs(3, FALSE, n) [] Palette = "runs5all" -> Runs(5, TRUE, n) [] Palette = "pairs" -> Pairs(n) [] Palette = "pairsall" -> PairsAll(n) [] Palette = "mini" -> Mini(n) [] Palette = "core" -> Core(n) [] Palette = "full" -> Full(n) [] Palette = "rich" -> Rich(n)
+Blocks(n) == CASE Palette = "volume" -> Volume(n) [] Palette = "volumeall" -> VolumeAll(n) [] Palette = "share" -> Share(n) [] Palette = "sharesame" -> ShareSame(n) [] Palette = "runs3" -> Runs(3, FALSE, n) [] Palette = "runs5all" -> Runs(5, TRUE, n) [] Palette = "pairs" -> Pairs(n) [] Palette = "pairsall" -> PairsAll(n) [] Palette = "mini" -> Mini(n) [] Palette = "core" -> Core(n) [] Palette = "full" -> Full(n) [] Palette = "rich" -> Rich(n)
 
 -----------------------------------------------------------------------------
 Plans  == UNION {[1..k -> MinBlocks..MaxBlocks] : k \in 1..MaxArts}
@@ -472,7 +512,7 @@ TemplateWordsLaw ==
 \* every section has body text: a sec block carries it; after a head, a block with body text
 \* comes before the next heading
 HasText(b) == \/ b.b \in {"list", "pre", "table", "tpl"}
-              \/ b.b = "para" /\ \E k \in 1..Len(b.xs) : b.xs[k].t \in {"w", "ll", "lb", "le", "tc"}
+              \/ b.b = "para" /\ \E k \in 1..Len(b.xs) : b.xs[k].t \in {"w", "ws", "ll", "lb", "le", "tc"}
 StartsSection(b) == b.b \in {"head", "sec"}
 SectionsHaveBody ==
   \A i \in 1..Len(arts) : \A k \in 1..Len(arts[i]) :
